@@ -113,7 +113,10 @@ func (n *Net) Take() host.Host {
 
 // Connect dials from a to b (a has the outbound connection).
 func Connect(a, b host.Host) error {
-	return a.Connect(context.Background(), peer.AddrInfo{ID: b.ID(), Addrs: b.Addrs()})
+	// bounded (virtual time): a dial can hang in identify when the peer is being torn down
+	ctx, cancel := context.WithTimeout(context.Background(), 10*time.Second)
+	defer cancel()
+	return a.Connect(ctx, peer.AddrInfo{ID: b.ID(), Addrs: b.Addrs()})
 }
 
 // Disconnect closes every connection between a and b (from a's side).
